@@ -106,22 +106,35 @@ def verdictI (line : String) : String :=
         | _, _, _ => "SKIP copy-outside-json-domain"
       pure s!"{id} {modelV} ## atom={spec} acls=- order={order} mode=copy dur={spec} dcls=- own=C03"
     else
-    match interleave cA cB cmdA cmdB sched pre with
+    -- DEL walks the Go map that KeysExist returned: the order in which it deletes its keys is not the
+    -- argument order; every order is tried (the observed one is among them)
+    let variants (c : List Bytes) : List (List Bytes) :=
+      if toLower (c.headD []) == b "del" && c.length ≤ 5 then
+        let ks := c.drop 1
+        (List.range ([1, 1, 2, 6, 24].getD ks.length 1)).map fun n => c.headD [] :: nthPerm n ks
+      else [c]
+    let judge (ca cb : List Bytes) : Option (String × Sched.Result) :=
+      match interleave cA cB ca cb sched pre with
+      | none => none
+      | some r =>
+        let trA := if r.traceA.isEmpty then "-" else ",".intercalate r.traceA
+        let trB := if r.traceB.isEmpty then "-" else ",".intercalate r.traceB
+        let modelV : String :=
+          match outMatches r.a ra, outMatches r.b rb with
+          | none, _ => s!"SKIP {showOut r.a}"
+          | _, none => s!"SKIP {showOut r.b}"
+          | some okA, some okB =>
+            if trA != ta || trB != tb then s!"DIFF keyspace-steps model=A:{trA}/B:{trB} impl=A:{ta}/B:{tb}"
+            else if !okA then s!"DIFF replyA model={showOut r.a} impl={ra.kind}({toHex ra.bytes})"
+            else if !okB then s!"DIFF replyB model={showOut r.b} impl={rb.kind}({toHex rb.bytes})"
+            else match (if canonState r.post == canonState post then none else some "state") with
+              | some d => s!"DIFF {d} after the schedule"
+              | none => "OK"
+        some (modelV, r)
+    let tries := (variants cmdA).flatMap fun ca => (variants cmdB).filterMap fun cb => judge ca cb
+    match (tries.find? fun t => !t.1.startsWith "DIFF").orElse (fun _ => tries.head?) with
     | none => pure s!"{id} SKIP unmodelled-command ## atom=na acls=- order={order}"
-    | some r =>
-      let trA := if r.traceA.isEmpty then "-" else ",".intercalate r.traceA
-      let trB := if r.traceB.isEmpty then "-" else ",".intercalate r.traceB
-      let modelV : String :=
-        match outMatches r.a ra, outMatches r.b rb with
-        | none, _ => s!"SKIP {showOut r.a}"
-        | _, none => s!"SKIP {showOut r.b}"
-        | some okA, some okB =>
-          if trA != ta || trB != tb then s!"DIFF keyspace-steps model=A:{trA}/B:{trB} impl=A:{ta}/B:{tb}"
-          else if !okA then s!"DIFF replyA model={showOut r.a} impl={ra.kind}({toHex ra.bytes})"
-          else if !okB then s!"DIFF replyB model={showOut r.b} impl={rb.kind}({toHex rb.bytes})"
-          else match (if canonState r.post == canonState post then none else some "state") with
-            | some d => s!"DIFF {d} after the schedule"
-            | none => "OK"
+    | some (modelV, _) =>
       -- Go maps and slices returned by GetValues are the stored objects: the hash writers and LSET change
       -- them in place before their SetValues; the model's values are immutable, so a disagreement on
       -- such a pair is outside the modelled domain (the serial-order verdict below still applies)
